@@ -57,7 +57,7 @@ def read_side_interest(ctx, rule):
 
 def mirror(ctx, rule, fname, which):
     facts = ctx.facts
-    fn, lv = leaves(ctx, fname)
+    fn, lv = leaves(ctx, fname, lower=True)
     short = fname.split("::")[-1]
     n = 0
     for lf in lv:
@@ -219,7 +219,7 @@ def respond_mirror(ctx):
     for f in facts.fns.values():
         if not list(f.calls_to(S + "epoll_mod")):
             continue
-        fn2, lv2 = leaves(ctx, f.name)
+        fn2, lv2 = leaves(ctx, f.name, lower=True)
         seen = set()
         for lf in lv2:
             for m in calls(lf, S + "epoll_mod"):
